@@ -3,6 +3,8 @@ import HidVerif.Hid.Machine
 import HidVerif.Gen.Stdlib
 import HidVerif.Sphinx.Monitor
 import HidVerif.Compiler.Templates
+import HidVerif.Gen.Funcs
+import HidVerif.Hid.Fold
 open HidVerif HidVerif.Sphinx
 
 def bytesToLines (b : ByteArray) : List (List Char) := Id.run do
@@ -47,6 +49,17 @@ def asmCheck (l : Asm.Loaded) : String :=
       match (List.range want.length).find? (fun i => l.prog.code[B + i]? != want[i]?) with
       | some i => s!"mismatch:instr{i}"
       | none => "ok"
+
+partial def toCExpr : Hid.Sexp → Except String Hid.CExpr
+  | .list [.atom "lit", .atom v] => match v.toInt? with | some i => .ok (.lit i) | none => .error "bad literal"
+  | .list [.atom "bin", .atom op, l, r] => do pure (.bin (← Hid.toBinOp op) (← toCExpr l) (← toCExpr r))
+  | .list [.atom "un", .atom op, e] => do
+    let op ← match op with
+      | "pos" => pure Hid.UnOp.pos | "neg" => pure .neg | "not" => pure .not | s => .error s!"bad unop {s}"
+    pure (.un op (← toCExpr e))
+  | .list [.atom "tobyte", e] => do pure (.toByte (← toCExpr e))
+  | .list [.atom "tobool", e] => do pure (.toBool (← toCExpr e))
+  | s => .error s!"bad constant expression {repr s}"
 
 def runCase (c : Case) : String :=
   let vmPart :=
@@ -113,6 +126,26 @@ def main (argv : List String) : IO UInt32 := do
     let b ← IO.FS.readBinFile file
     let c : Case := { id := "vm", asm := bytesToLines b, args := args.map (fun a => a.toUTF8.data.toList.map (·.toNat)) }
     IO.println (runCase c)
+    return 0
+  | ["fold", file] =>
+    -- one constant expression per line: prints the exact (compile-time) value and the
+    -- run-time values at w = 2, 3, 4
+    let b ← IO.FS.readBinFile file
+    for l in bytesToLines b do
+      match Hid.Sexp.parse l >>= toCExpr with
+      | .error e => IO.println s!"error {e}"
+      | .ok ce =>
+        let z := match Hid.evalZ ce with | some v => toString v | none => "divzero"
+        let ws := [2, 3, 4].map (fun w =>
+          let E : Hid.Env := { w := w, checked := true, stackBytes := 0, prog := ⟨[], []⟩ }
+          match Hid.evalW E ce with | some v => toString (E.toS v) | none => "divzero")
+        IO.println s!"{z} {" ".intercalate ws}"
+    return 0
+  | ["escapetable"] =>
+    -- the transcribed `_escape_bytes` on its whole per-byte domain, for comparison with Python
+    for q in [34, 39] do
+      for b in List.range 256 do
+        IO.println s!"{q} {b} {"".intercalate ((Gen.escapeByte [q] b).map VM.hex2)}"
     return 0
   | _ =>
     IO.eprintln "usage: hidmodel batch <file> | vm <asm> [args...]"
